@@ -75,6 +75,51 @@ def md5_absent_reader_rule(F, rep, P):
               "the 'is a digest stored' test of the STREAMINFO reader is not 'some byte is non-zero': digests that merely contain a zero byte (or none at all) are misread, and verification reports NoMD5 / compares against nothing")
 
 
+def _self_fields(F, b):
+    """named fields of `self` (argument 1) a body - and its closures through their captures - reads"""
+    out = set()
+    def visit(p):
+        if p is not None and p["l"] == 1:
+            fs = place_fields(p)
+            if fs:
+                out.add(fs[0])
+    for bl in b.blocks:
+        for st in bl["s"]:
+            rv = st["rv"]
+            for o in rv_operands(rv):
+                visit(op_place(o))
+            if rv["r"] in ("ref", "disc", "len") and isinstance(rv.get("p"), dict):
+                visit(rv["p"])
+        t = bl["t"]
+        if t and t["t"] == "call":
+            for a in t["a"]:
+                visit(op_place(a))
+        elif t and t["t"] == "switch":
+            visit(op_place(t["o"]))
+    return out
+
+
+def adjacent_sibling_rules(F, rep, R):
+    """the two halves of one Adjacent impl judge the same things: what valid_first() examines of the first item is what is_next()
+    examines of every later one (a struct impl whose two tests look at different fields lets one field escape validation at one end)"""
+    n = 0
+    impls = {}
+    for b in F.bodies:
+        m = re.match(r"^<(.*) as metadata::contiguous::Adjacent>::(valid_first|is_next)$", b.path)
+        if m and b.promoted is None and b.kind != "Closure":
+            impls.setdefault(m.group(1), {})[m.group(2)] = b
+    for ty, d in sorted(impls.items()):
+        if len(d) != 2:
+            continue
+        fa, fb = _self_fields(F, d["valid_first"]), _self_fields(F, d["is_next"])
+        if not fa or not fb:
+            continue    # scalars and enums: nothing to compare field by field
+        n += 1
+        rep.check(R, "%s: valid_first and is_next examine the same fields of self" % strip_generics(ty), fa == fb, loc_of(d["valid_first"]), "%s / %s" % (sorted(fa), sorted(fb)),
+                  "valid_first() looks at %s but is_next() at %s: the first item of a sequence is validated on something other than what orders the rest" % (sorted(fa), sorted(fb)))
+    rep.floor(R, "struct impls of Adjacent compared", n, 3)
+
+
 def contiguous_rules(F, ok, rep, P):
     """metadata::contiguous::Contiguous: the one-by-one constructor (try_push, used by the readers) and the batch constructor
     (TryFrom<Vec<T>>, open to callers) apply the same two tests - valid_first() to the item without a predecessor,
@@ -178,6 +223,12 @@ def run(ctx, rep):
                         good = len(pk) == 1 and re.search(r"Peekable::<I>::peek$", callee_name(pk[0])) is not None
         rep.check("C11.frame", "writer: a block is flagged last exactly when no block follows (peek().is_none())", good, loc_of(il), "",
                   "the last-block flag written into the block headers is not `no further block follows`: readers stop early or run into the audio frames")
+    wbk = anchor(F, rep, "C11.frame", "metadata::write_blocks")
+    if wbk is not None:
+        SELECT = r"Iterator::(filter|filter_map|skip|take|skip_while|take_while|step_by|map_while|flatten|flat_map|scan)$"
+        sel = sorted({strip_generics(nm) for x in region(F, wbk) for nm in [callee_name(t) for _, t in x.calls()] if re.search(SELECT, nm)})
+        rep.check("C11.frame", "writer: every block handed to write_blocks is written (no selecting adaptor on the block list)", not sel, loc_of(wbk), "",
+                  "write_blocks passes its blocks through %s: some blocks of the caller's list never reach the file, so the list read back (and the size of the metadata region) differs from what was asked for" % sel)
     rb0 = F.body("metadata::BlockIterator::<R>::read_block")
     if rb0 is None:
         rep.bad("C11.frame", "anchor:BlockIterator::read_block", "", "not found")
@@ -316,6 +367,7 @@ def run(ctx, rep):
     lenlib.length_prefix_rules(ctx, rep, "C11", floor_w=1, floor_r=1)
 
     contiguous_rules(F, ok, rep, "C11")
+    adjacent_sibling_rules(F, rep, "C11.contig")
     md5_absent_reader_rule(F, rep, "C11")
 
     # ---- C11.uniq ---------------------------------------------------------------------------------------------
@@ -481,6 +533,9 @@ def run(ctx, rep):
     from rules import invlib
     invlib.newtype_invariant(ctx, rep, "C11")
     auditlib.panic_audit(ctx, rep, "C11", ["G_mw"], floor_sites=90)
+    # updating the blocks of an existing file is a write followed by a read of the same bytes: it must land where the
+    # blocks were read from (C10.rewind) on a file opened without truncation (C10.open)
+    compose(ctx, rep, "C10", "C11.upd", r"^C10\.(rewind|open)$")
 
 
 def flat_sigs(G, b):
